@@ -1,41 +1,182 @@
-"""Which functions (under contract) and lemmas decide which property."""
-T_ = "cfdppy.handler.dest.LostSegmentTracker."
+"""Which obligations decide which property.
+
+A property's check verifies every contract that carries the property's id (on the contract or on one of its clauses) and
+counts exactly the obligations tagged with that id (post/raises clauses by their own tags; safety, frame, effect,
+pre-of-callee and loop obligations by the tags of the contract they belong to)."""
+
+TECH = ("contract-based deductive verification: VCs generated from the real Python AST by symbolic execution against sidecar "
+        "contracts, discharged by z3/cvc5")
+STUBS = "stubs/cfdp.py: assumed contracts of spacepackets PDU classes, Countdown, TLVs, abstract VirtualFilestore, user callbacks"
+ENV = ("environment assumptions: PDUs are well-formed library objects; timers do not expire within one handler call; the filestore "
+       "does not reject a write to the file it created for the transaction when the handler is summarised by contract (EA-1); "
+       "remote configurations satisfy limits >= 1 and max_packet_len >= 64 (finding F11 excluded)")
+
+
+def P(level, text, note, explanation, assumptions=(), trusted=(), bounded=()):
+    return {"level": level, "level_text": text, "level_note": note, "explanation": explanation,
+            "assumptions": list(assumptions), "trusted_base": list(trusted), "bounded": list(bounded)}
+
 
 PROPERTIES = {
-    "C18": {
-        "level": "proof",
-        "level_text": "Every method of LostSegmentTracker is proved, for all well-formed tracker states, offsets and range counts "
-                      "(no bound), to refine the exact interval set of the property; the invariant is inductive so it covers every operation history.",
-        "level_note": "Relative to pyvc's encoding of Python ints/dicts/tuples (dict(sorted(...)), dict(pairs), update/pop/get axioms), z3/cvc5, "
-                      "and the triggered view-predicate axiomatisation; removal ranges outside the property's precondition (covering more than one tracked range) are outside the contract.",
-        "explanation": "Every LostSegmentTracker method is verified against the abstract interval-set view "
-                       "(view(x) <=> some range [k, d[k]) contains x) and the representation invariant "
-                       "(non-empty, disjoint, ascending): exact union/difference, coalescing keeps the set and "
-                       "leaves no adjacent ranges, return value <=> change, straddling removal refused unchanged. "
-                       "Loops are cut at inductive invariants; no bound on offsets, number of ranges or history "
-                       "(the invariant quantifies over all well-formed states).",
-        "assumptions": ["dict model: finite map + insertion order (DESIGN 3.2); dict(list_of_pairs) axioms in stubs/builtins_.py"],
-        "trusted_base": [],
-    },
+    "C04": P("proof",
+             "Every timer-driven retry step of both handlers (EOF awaiting ACK, Finished awaiting ACK, deferred NAK sequences) is proved "
+             "against pre/post contracts over the real code for all limits N >= 1 and all counter values allowed by the inductive handler "
+             "invariant: no expiry = no-op, expiry below the limit = re-send + counter+1 + timer restart, expiry at the limit = the limit "
+             "fault (exactly then), progress resets the counter, a limit fault during the cancel exchange abandons the transaction.",
+             "Per-step Hoare triples; 'exactly the N-th consecutive expiry' follows from the counter invariant 0 <= counter < limit plus "
+             "these triples (induction over expiries is the standard argument, not a separate obligation). Time is an oracle boolean per "
+             "timed_out() call. " + ENV,
+             "Source: _handle_positive_ack_procedures, _handle_waiting_for_ack, _notice_of_cancellation, _declare_fault, _handle_eof_sent. "
+             "Dest: _handle_positive_ack_procedures, _handle_waiting_for_finished_ack, _handle_finished_pdu_sent, "
+             "_deferred_lost_segment_handling, _reset_nak_activity_parameters, _handle_waiting_for_missing_metadata, "
+             "_start_deferred_lost_segment_handling.", [STUBS, ENV], [STUBS]),
+    "C05": P("proof",
+             "Every filestore effect of the destination handler is proved, per function and for all PDUs/states allowed by the invariant, "
+             "to address the resolved destination path: Metadata resolves the path (directory rule) and creates or truncates exactly that "
+             "file; a File Data PDU causes exactly one write_data(dest, data, offset) and nothing else; File Data/EOF before Metadata touch "
+             "no file; deletion happens only of the destination file and only on cancel with disposition; every statement slice of the "
+             "dispatcher mutates only that path.",
+             "Equality of the file content with the write-model over a whole history is the induction over these per-call effect contracts "
+             "together with the ASSUMED contract of VirtualFilestore.write_data (zero-fill of gaps); the induction itself is not a generated "
+             "obligation. " + ENV,
+             "Dest: _init_vfs_handling, _handle_metadata_packet, _handle_fd_pdu, _handle_fd_without_previous_metadata, "
+             "_handle_eof_without_previous_metadata, _handle_eof_pdu, _checksum_verify, _notice_of_completion, "
+             "_handle_transfer_completion, __idle_fsm, __non_idle_fsm (8 slices), state_machine.", [STUBS, ENV], [STUBS]),
+    "C06": P("other",
+             "Per emission site the NAK contents are proved for all offsets, sizes and tracker states: immediate NAK = exactly the detected "
+             "gap inside scope (0, offset+len); metadata request only while metadata is missing; deferred sequence = ([(0,0)] if metadata "
+             "missing) ++ tracked ranges in ascending order, split into PDUs of at most max-requests each of which fits max_packet_len, "
+             "scope (0, EOF size); nothing missing => no NAK and completion. The tracker view is maintained exactly by every handler "
+             "function (gap recorded, re-received segment removed, tail gap at EOF, coalescing keeps the set).",
+             "Level 'other' because the completeness half ('the tracker view equals the set of bytes not yet stored') needs a ghost set of "
+             "stored bytes across calls; it is carried by the per-function view contracts above plus C18, not by a single discharged "
+             "invariant. Open findings F13/F13b/F21 (bookkeeping for File Data/EOF while waiting for Metadata, EOF (cancel) smaller than "
+             "the data received) are reported as KNOWN-FINDING. " + ENV,
+             "Dest: _lost_segment_handling, _handle_fd_pdu, _handle_eof_pdu, _handle_fd_without_previous_metadata, "
+             "_handle_eof_without_previous_metadata, _handle_waiting_for_missing_metadata, _start_deferred_lost_segment_handling, "
+             "_deferred_lost_segment_handling (loop invariant + per-iteration obligations), _fsm_advancement_after_packets_were_sent; "
+             "spacepackets get_max_seg_reqs_for_max_packet_size_and_pdu_cfg and PduConfig.header_len are executed from their real source.",
+             [STUBS, ENV], [STUBS]),
+    "C07": P("proof",
+             "For all file sizes, segment lengths, id widths, flags and modes: the Metadata PDU carries the request's names, the filestore "
+             "size, checksum type and closure flag; each state-machine call emits at most one File Data PDU which is the next tile "
+             "[progress, progress+min(segment_len, remaining)) read through the filestore; the EOF is queued only when progress == file "
+             "size with size and checksum of the file; every PDU carries the transaction's header fields; segment length = min(configured, "
+             "derived) and a full segment fits max_packet_len.",
+             "Tiling of [0, size) is the induction over the proved per-call tile contract and the invariant 0 <= progress <= size; "
+             "'serialises to a parsable PDU' is outside (spacepackets pack/unpack is not verified). " + ENV,
+             "Source: _transaction_start (with _prepare_file_params, _prepare_pdu_conf, _get_next_transfer_seq_num, "
+             "_calculate_max_file_seg_len), _prepare_metadata_pdu, _sending_file_data_fsm, _prepare_progressing_file_data_pdu, "
+             "_prepare_file_data_pdu, _fsm_advancement_after_packets_were_sent, _prepare_eof_pdu, _handle_wait_for_finish (ACK of "
+             "Finished); spacepackets get_max_file_seg_len_for_max_packet_len_and_pdu_cfg executed from its real source.",
+             [STUBS, ENV], [STUBS]),
+    "C08": P("proof",
+             "For every NAK and every segment request (symbolic start/end, any number of requests): (0,0) re-sends the Metadata PDU; a "
+             "valid range is tiled by File Data PDUs (loop invariant current_offset + remaining == end, per-iteration obligation: one PDU "
+             "at current_offset of length 1..segment_len, variant remaining); inverted or beyond-progress requests raise InvalidNakPdu "
+             "with nothing emitted for that request; progress, EOF condition and file size are untouched; the step to resume is recorded "
+             "and restored exactly.",
+             "Requests of one NAK that precede an invalid request have already been queued when the exception is raised (allowed by the "
+             "property's wording). " + ENV,
+             "Source: _handle_segment_req, __handle_retransmission, _prepare_file_data_pdu, _prepare_metadata_pdu, "
+             "_fsm_advancement_after_packets_were_sent, dispatch in _sending_file_data_fsm / _handle_waiting_for_ack / "
+             "_handle_wait_for_finish.", [STUBS, ENV], [STUBS]),
+    "C10": P("proof",
+             "Both public state machines, put/cancel requests and get_next_packet are proved to end only normally or with a declared "
+             "protocol exception, for every PDU kind and every state satisfying the (proved inductive) handler invariants; every private "
+             "callee's precondition is proved at its call site; a PDU rejected by the admission check modifies nothing; "
+             "UnretrievedPdusToBeSent only if the queue was non-empty at entry.",
+             "Open findings F5a (UnretrievedPdusToBeSent for a PDU queued in the same call) and F5b (tracker ValueError leaks) are reported "
+             "as KNOWN-FINDING; FileNotFoundError from a filestore race is treated as the filestore's documented exception. Default fault "
+             "handler table as the property says. " + ENV,
+             "Source: state_machine, _fsm_non_idle (one instance per step), _check_inserted_packet and all their callees. Dest: "
+             "state_machine, __idle_fsm, __non_idle_fsm (8 statement slices with a common mid-condition), _check_inserted_packet and all "
+             "their callees.", [STUBS, ENV], [STUBS]),
+    "C11": P("proof",
+             "Fresh-state invariant: the source invariant states that before a transaction starts every per-transaction field has its "
+             "constructor value and it is proved for every path that ends a transaction; the destination's reset/start paths are proved "
+             "to install a NEW parameter block, tracker and finished-params object with constructor values (dataclass default objects "
+             "are modelled as process-wide singletons, so a shared default fails).",
+             "Sufficient condition for the 2-safety statement: equivalence is up to what the contracts observe (PDUs, indications, "
+             "filestore calls, public state). " + ENV,
+             "Dest: _reset_internal, __idle_fsm, _handle_waiting_for_finished_ack, _handle_finished_pdu_sent, state_machine. Source: "
+             "_reset_internal, _notice_of_completion, state_machine (invariant S9).", [STUBS, ENV], [STUBS]),
+    "C12": P("proof",
+             "cancel_request of both handlers: returns true iff busy with that transaction id; a refused request changes nothing; sender: "
+             "exactly one EOF(Cancel Request Received) with size = progress and the filestore checksum of that prefix, then EOF-ACK wait "
+             "or idle; receiver: CANCELED, condition code, local entity as fault location, completion step; EOF (cancel) handling, "
+             "reported condition and disposition-on-cancellation deletion are proved per function.",
+             "Open finding F16 (EOF (cancel) before Metadata) is reported as KNOWN-FINDING. " + ENV,
+             "Source: cancel_request, _notice_of_cancellation, _handle_positive_ack_procedures (re-sent EOF). Dest: cancel_request, "
+             "_handle_eof_pdu, _notice_of_completion, _handle_transfer_completion, _prepare_finished_pdu, "
+             "_fsm_advancement_after_packets_were_sent and _deferred_lost_segment_handling (cancel condition is never overwritten).",
+             [STUBS, ENV], [STUBS]),
+    "C13": P("proof",
+             "Receiver: an EOF whose checksum does not match yet defers completion (check-limit step, count 0, fresh timer, no finished "
+             "indication); each expiry re-verifies; success completes with DATA_COMPLETE; Check Limit Reached is declared exactly when "
+             "count+1 >= limit; below the limit count+1 and timer restart. Sender: closure arms the check timer, its expiry without a "
+             "Finished PDU cancels with Check Limit Reached.",
+             ENV, "Dest: _handle_eof_pdu, _check_limit_handling, _checksum_verify. Source: _handle_eof_sent, _handle_wait_for_finish; mib "
+             "defaults (checksum failure ignored).", [STUBS, ENV], [STUBS]),
+    "C14": P("proof",
+             "The table API (construction, get_fault_handler, set_handler, report_fault) is proved against a finite-map model for every "
+             "condition and handler code; both _declare_fault implementations are proved, case-split on the configured code, to invoke "
+             "exactly one callback of that kind with (transaction id, condition, progress at declaration) and to have the configured "
+             "effect; each declaration site is proved to declare the right condition.",
+             "Open finding F5c (destination keeps using the parameter block after ABANDON) is reported as KNOWN-FINDING; the sender's "
+             "abandon during the cancel exchange is C04's rule. " + ENV,
+             "mib.DefaultFaultHandlerBase.{__init__, get_fault_handler, set_handler, report_fault}; source/dest _declare_fault; "
+             "declaration sites.", [STUBS, ENV], [STUBS]),
+    "C15": P("proof",
+             "Each indication call site is proved to be issued iff its switch is on, with parameters equal to the facts (transaction id of "
+             "the PDUs, offset/length of the File Data PDU, names/size/messages of the Metadata PDU via a loop invariant over the option "
+             "list, the live finished-params object that the Finished PDU carries, originating id unless a proxy put response is present "
+             "via a loop invariant over the message list).",
+             "Causal order is per call site (each indication is issued by the function handling the corresponding event); TLV lists are "
+             "abstract (kind, identity) sequences. " + ENV,
+             "Source: _transaction_start, _check_for_originating_id, _prepare_eof_pdu, _notice_of_completion. Dest: "
+             "_handle_metadata_packet, _handle_fd_pdu, _handle_eof_pdu, _handle_eof_without_previous_metadata, _notice_of_completion, "
+             "_handle_transfer_completion, _prepare_finished_pdu.", [STUBS, ENV], [STUBS]),
+    "C16": P("proof",
+             "Effect typing: every path of every verified handler function has effects within {filestore object, user callbacks, "
+             "timers, fault callbacks, sequence number provider}; builtins open() and every pathlib method that consults the host file "
+             "system carry effect hostfs, which no handler contract allows.",
+             "Relative to the effect annotations of the stubs (complete list of pathlib methods in stubs/cfdp.py); the parametricity "
+             "corollary (an in-memory filestore behaves like the native one) is an argument over these effect contracts.",
+             "All contracts of cfdppy.handler.source and cfdppy.handler.dest (effects= declared on each).", [STUBS], [STUBS]),
+    "C18": P("proof",
+             "Every method of LostSegmentTracker is proved, for all well-formed tracker states, offsets and range counts (no bound), to "
+             "refine the exact interval set of the property; the invariant is inductive so it covers every operation history.",
+             "Relative to pyvc's encoding of Python ints/dicts/tuples (dict(sorted(...)), dict(pairs), update/pop/get axioms), z3/cvc5, and "
+             "the triggered view-predicate axiomatisation; removal ranges outside the property's precondition are proved to keep the "
+             "representation well-formed and never to add bytes.",
+             "Every LostSegmentTracker method is verified against the abstract interval-set view and the representation invariant; loops "
+             "are cut at inductive invariants.",
+             ["dict model: finite map + insertion order; dict(list_of_pairs) axioms in stubs/builtins_.py"], []),
+    "C19": P("proof",
+             "put_request: accepted iff idle; a busy handler returns False and nothing at all changes (conditional frame); missing source "
+             "file / unknown destination raise the documented error with the handler idle; mode and closure come from the request when "
+             "given, else from the remote configuration (all combinations symbolic); segment length = min(configured, derived from "
+             "max_packet_len); exactly one get_and_increment() per transaction start and its value is the sequence number.",
+             "Freshness of transaction ids across transactions relies on the ASSUMED provider contract (consecutive values). " + ENV,
+             "Source: put_request (+_setup_transmission_params inlined), _transaction_start, _get_next_transfer_seq_num, "
+             "_calculate_max_file_seg_len, _prepare_file_params.", [STUBS, ENV], [STUBS]),
+    "C20": P("proof",
+             "The routing helper is proved against the property's table for a symbolic PDU of each of the eight kinds with symbolic "
+             "direction flag, mode, id widths/values and CRC flag; both admission checks are proved to refuse every PDU routed to the "
+             "other side and to say 'wrong handler' only for such PDUs; the inactive-EOF helper is proved field by field.",
+             "Relative to the assumed PDU object model of spacepackets; PDUs are symbolic objects, not byte strings.",
+             "get_packet_destination, SourceHandler._check_inserted_packet, DestHandler._check_inserted_packet, "
+             "acknowledge_inactive_eof_pdu.", [STUBS], [STUBS]),
 }
 
-
-PROPERTIES["C20"] = {
-    "level": "proof",
-    "level_text": "The routing helper is proved against the property's table for a symbolic PDU of each of the eight kinds "
-                  "with symbolic direction flag, mode, id widths/values and CRC flag (finite kind space case-split, everything "
-                  "else unbounded); both admission checks are proved to refuse every PDU routed to the other side and to say "
-                  "'wrong handler' only for such PDUs; the inactive-EOF helper is proved field by field.",
-    "level_note": "Relative to the assumed PDU object model of spacepackets (stubs/cfdp.py: fields, pdu_type/directive_type, "
-                  "PduHolder casts; ACK acked-directive in {EOF, Finished}). PDUs are symbolic objects, not byte strings: "
-                  "unpacking is outside the verified code.",
-    "explanation": "get_packet_destination, SourceHandler._check_inserted_packet, DestHandler._check_inserted_packet "
-                   "(incl. _handle_first_packet_not_metadata_pdu inlined) and acknowledge_inactive_eof_pdu are executed "
-                   "symbolically for every PDU kind; each raise site must be allowed by a raises-clause, each normal "
-                   "return must satisfy 'not routed to the other side'.",
-    "assumptions": ["spacepackets PDU classes behave as the stub model (direction/ids/mode are plain header fields; "
-                    "FileDataPdu has no directive_type)"],
-    "trusted_base": ["stubs/cfdp.py PDU object model"],
+NOT_APPLICABLE = {
+    "C01": "not yet claimed by this revision: the local obligations exist (tagged C01 on the checksum guard, EOF fields, progress and "
+           "relaying contracts) but the composition lemma over the channel model is not built",
+    "C02": "whole-run completion of two composed state machines is not a per-function contract; the step contracts it would chain are "
+           "checked under C04/C05/C07/C10/C13 (clauses tagged C02), the chaining lemmas are not built",
+    "C03": "bounded-fault recovery of the composed system is a liveness property over schedules that contracts cannot express; its "
+           "necessary local conditions are checked under C04, C06, C08, C18 (clauses tagged C03)",
+    "C09": "no contract over byte sequences for NativeFilestore.calculate_checksum / crc.calc_modular_checksum built yet",
+    "C17": "no contract for NativeFilestore against OS axioms built yet",
 }
-
-NOT_APPLICABLE = {}
